@@ -328,13 +328,15 @@ Proof.
   - rewrite (updl_some _ _ _ _ Hr). rewrite store_setl, aget_aset_same. repeat split.
 Qed.
 
-Lemma update_and_rearm_ginv s xt xe k r c l m :
-  GInv s (gk xt xe k) -> aget (store s) r = Some l -> l_key l = k -> aget (mgrs s) k = Some m ->
+Definition gkc (xt xe : list ref) (k : N) (a b : Z) : ghost := mkGhost xt xe [] [] [] [] k false false 0 a b.
+
+Lemma update_and_rearm_ginv s xt xe k a b r c l m :
+  GInv s (gkc xt xe k a b) -> aget (store s) r = Some l -> l_key l = k -> aget (mgrs s) k = Some m ->
   0 < l_locked l -> l_timeouted l = true -> occ r (holders m) = 1%nat ->
   cmd_core c -> c_lockid c = c_lockid (l_cmd l) ->
-  GInv (fst (update_and_rearm s k r c)) (gk xt xe k).
+  GInv (fst (update_and_rearm s k r c)) (gkc xt xe k a b).
 Proof.
-  intros G Hr Hkey Hm Hd Ht Hh Hc Hid. set (g := gk xt xe k) in *.
+  intros G Hr Hkey Hm Hd Ht Hh Hc Hid. set (g := gkc xt xe k a b) in *.
   destruct (gi_rec _ _ G r l Hr) as [A1 A2 A3 A4 A5 A6 A7 A8 A9 A10 A11].
   destruct Hc as [C1 [C2 [C3 C4]]].
   unfold update_and_rearm. rewrite (getl_some _ _ _ Hr). cbv zeta. rewrite update_locked_lock_eq, (getl_some _ _ _ Hr).
@@ -348,7 +350,7 @@ Proof.
     assert (Hb : occ r (wheel_get (elong s) (lkey (l_eT l))) = 1%nat) by (apply A8; auto).
     pose proof (ginv_pend_add s g r G) as G0.
     assert (G1 : GInv (setl s r l1) (g <| g_pend := [r] |>)).
-    { apply (setl_irrel s _ r l l1 G0 Hr Hsr). intros _ Hpe. unfold g, gk in Hpe. gs. rewrite occ_cons_eq in Hpe. discriminate. }
+    { apply (setl_irrel s _ r l l1 G0 Hr Hsr). intros _ Hpe. unfold g, gkc in Hpe. gs. rewrite occ_cons_eq in Hpe. discriminate. }
     rewrite C3. cbn [negb].
     rewrite (getl_some _ _ _ Hr1).
     destruct (negb (l_eT l =? l_eT l1)%Z) eqn:Ene.
@@ -357,7 +359,7 @@ Proof.
       change (elong (setl s r l1)) with (elong s) in Fr.
       destruct (wheel_get_some (elong s) (lkey (l_eT l)) r) as [q [Hq1 Hq2]]; [lia|]. rewrite Hq1 in Fr.
       assert (G2 : GInv (remove_long_expried (setl s r l1) r (l_eT l)) (g <| g_pend := [r] |>)).
-      { apply (remove_long_expried_ginv _ _ r l1 (l_eT l) G1 Hr1); unfold g, gk; gs; auto.
+      { apply (remove_long_expried_ginv _ _ r l1 (l_eT l) G1 Hr1); unfold g, gkc; gs; auto.
         - rewrite occ_cons_eq. lia.
         - intros _. rewrite F1, Hkey. change (getm (setl s r l1) k) with (getm s k). rewrite (getm_some _ _ _ Hm). auto. }
       set (s2 := remove_long_expried (setl s r l1) r (l_eT l)) in *.
@@ -370,7 +372,7 @@ Proof.
         destruct (rec_counts s g r l G Hr) as [[X1 [X2 [X3 X4]]] _].
         pose proof (ro_ec _ _ _ _ (gi_rec _ _ G3 r l2 Fr)) as E2.
         pose proof (occ_wheel_get_le r (elong s) (lkey (l_eT l))) as W.
-        subst g. unfold gk in *. gs. simpl occ in *.
+        subst g. unfold gkc in *. gs. simpl occ in *.
         rewrite Hkey, (getm_some _ _ _ Hm) in *.
         change (l_key l2) with (l_key l1) in R2. rewrite ?F1, ?Hkey in R2. unfold getm in R2. rewrite Fm in R2.
         change (mgrs (setl s r l1)) with (mgrs s) in R2. rewrite Hm in R2.
@@ -381,7 +383,7 @@ Proof.
       assert (T2 : l_timeouted l2 = true) by (change (l_timeouted l2) with (l_timeouted l1); congruence).
       pose proof (ginv_borrow_e s2 g r l2 G3 Fr He2 T2) as G4.
       assert (G5 : GInv (fst (add_expried s2 k r)) (g <| g_owe := [r] |>)).
-      { eapply ginv_geq; [eapply (add_expried_ginv s2 _ k r _ l2 G4); unfold g, gk; gs; auto; reflexivity|reflexivity]. }
+      { eapply ginv_geq; [eapply (add_expried_ginv s2 _ k r _ l2 G4); unfold g, gkc; gs; auto; reflexivity|reflexivity]. }
       destruct (add_expried s2 k r) as [s3 aev] eqn:E3. cbn [fst] in *.
       assert (E3' : s3 = fst (add_expried s2 k r)) by (rewrite E3; reflexivity).
       destruct (aget (store s3) r) as [l4|] eqn:Hr4; [|rewrite E3' in Hr4; apply add_expried_stored in Hr4; congruence].
